@@ -279,6 +279,54 @@ REFACTORS = [
 ]
 
 
+# behaviour-preserving renames inside one function: (name, note, file, start marker, end marker,
+# [(old identifier, new identifier), ...])
+RENAMES = [
+    ("C16-rename-parameter", "parameter seq_action of SizedBundle::try_push renamed",
+     CP + "executor/bundle_factory/mod.rs",
+     "    fn try_push(&mut self, seq_action: RollupDataSubmission) -> Result<(), SizedBundleError> {",
+     "    /// Replace self with a new empty bundle, returning the old bundle.",
+     [("seq_action_size", "submission_size"), ("seq_action", "submission")]),
+    ("C12-rename-parameter", "parameters of Input::extend_from_sequencer_block renamed",
+     RL + "relayer/write/conversion.rs",
+     "    fn extend_from_sequencer_block(", "    fn greatest_sequencer_height(&self)",
+     [("rollup_filter", "filter"), ("block", "sequencer_block")]),
+    ("C01-rename-parameter", "parameter `state` of CheckedTransfer::execute renamed",
+     SQ + "checked_actions/transfer.rs",
+     "    pub(super) async fn execute<S: StateWrite>(&self, mut state: S) -> Result<()> {",
+     "impl AssetTransfer for CheckedTransfer",
+     [("state", "delta")]),
+    ("C15-rename-parameter", "parameters of validate_extended_commit_against_last_commit renamed",
+     SQ + "app/vote_extension.rs",
+     "fn validate_extended_commit_against_last_commit(", "    Ok(())\n}\n",
+     [("extended_commit_info_vote", "ext_vote"), ("last_commit_vote", "lc_vote"),
+      ("extended_commit_info", "extended"), ("last_commit", "previous")]),
+]
+
+
+def make_renames(outdir):
+    import re as _re
+    bad = 0
+    for name, note, rel, start, end, pairs in RENAMES:
+        src = open(os.path.join(REPO, rel)).read()
+        try:
+            a = src.index(start)
+            b = src.index(end, a + len(start))
+        except ValueError:
+            print(f"!! {name}: markers not found in {rel}", file=sys.stderr)
+            bad += 1
+            continue
+        fn = src[a:b]
+        for old, new in pairs:
+            fn = _re.sub(r"(?<![\w.])" + _re.escape(old) + r"(?!\w)", new, fn)
+        dst = src[:a] + fn + src[b:]
+        diff = "".join(difflib.unified_diff(src.splitlines(True), dst.splitlines(True),
+                                            "a/" + rel, "b/" + rel, n=3))
+        with open(os.path.join(outdir, name + ".patch"), "w") as f:
+            f.write(f"# note: {note}\n" + diff)
+    return bad
+
+
 def make(table, outdir, is_mut):
     os.makedirs(outdir, exist_ok=True)
     for f in os.listdir(outdir):
@@ -311,5 +359,5 @@ def make(table, outdir, is_mut):
 
 
 if __name__ == "__main__":
-    b = make(MUTANTS, OUT_M, True) + make(REFACTORS, OUT_R, False)
-    print(f"{len(MUTANTS)} mutants, {len(REFACTORS)} refactors, {b} patterns missing")
+    b = make(MUTANTS, OUT_M, True) + make(REFACTORS, OUT_R, False) + make_renames(OUT_R)
+    print(f"{len(MUTANTS)} mutants, {len(REFACTORS) + len(RENAMES)} refactors, {b} patterns missing")
